@@ -10,6 +10,7 @@
  *       + CPU-less NUMA2 attached to the Machine
  *   S3: Machine{ PU0 +NUMA0 }
  *   S4: S1 loaded with INCLUDE_DISALLOWED where PU1 and NUMA1 are disallowed
+ *   S5: S1 with a memory-side cache between each package and its NUMA node
  */
 #ifndef VP_SEED_H
 #define VP_SEED_H
@@ -55,7 +56,7 @@ struct vp_seed {
   struct hwloc_topology *topology;
   unsigned nobj;
   hwloc_obj_t obj[VP_SEED_MAXOBJ];     /* every object, creation order */
-  hwloc_obj_t pu[4], numa[3], pkg[2], core[2], misc, bridge, pcidev, osdev;
+  hwloc_obj_t pu[4], numa[3], pkg[2], core[2], memcache[2], misc, bridge, pcidev, osdev;
   unsigned long cpus, nodes;           /* root cpuset / nodeset words */
 };
 static struct vp_seed vp_seed;
@@ -67,6 +68,7 @@ static hwloc_obj_t vp_ins(struct hwloc_topology *t, hwloc_obj_type_t ty, unsigne
   hwloc_obj_t o = hwloc_alloc_setup_object(t, ty, idx), r;
   o->cpuset = vp_bm(cpus);
   if (ty == HWLOC_OBJ_NUMANODE) { o->nodeset = vp_bm(nodes); o->attr->numanode.local_memory = 1024UL * (idx + 1); }
+  if (ty == HWLOC_OBJ_MEMCACHE) { o->nodeset = vp_bm(nodes); o->attr->cache.depth = 4; o->attr->cache.type = HWLOC_OBJ_CACHE_UNIFIED; o->attr->cache.size = 4096; o->attr->cache.linesize = 64; }
   r = hwloc__insert_object_by_cpuset(t, NULL, o, NULL);
   VP_ASSUME(r == o);
   vp_seed.obj[vp_seed.nobj++] = o;
@@ -87,6 +89,15 @@ static int vp_seed_discover(struct hwloc_backend *b, struct hwloc_disc_status *d
   if (vp_seed_id == 3) {
     s->pu[0] = vp_ins(t, HWLOC_OBJ_PU, 0, 0x1, 0);
     s->numa[0] = vp_ins(t, HWLOC_OBJ_NUMANODE, 0, 0x1, 0x1);
+    return 0;
+  }
+  if (vp_seed_id == 5) {
+    /* S5: S1 with a memory-side cache in front of each NUMA node (Package -> MemCache -> NUMA) */
+    s->pu[0] = vp_ins(t, HWLOC_OBJ_PU, 0, 0x01, 0); s->pu[1] = vp_ins(t, HWLOC_OBJ_PU, 1, 0x02, 0);
+    s->pu[2] = vp_ins(t, HWLOC_OBJ_PU, 2, 0x04, 0); s->pu[3] = vp_ins(t, HWLOC_OBJ_PU, 5, 0x20, 0);
+    s->pkg[0] = vp_ins(t, HWLOC_OBJ_PACKAGE, 0, 0x03, 0); s->pkg[1] = vp_ins(t, HWLOC_OBJ_PACKAGE, 1, 0x24, 0);
+    s->numa[0] = vp_ins(t, HWLOC_OBJ_NUMANODE, 0, 0x03, 0x1); s->numa[1] = vp_ins(t, HWLOC_OBJ_NUMANODE, 1, 0x24, 0x2);
+    s->memcache[0] = vp_ins(t, HWLOC_OBJ_MEMCACHE, HWLOC_UNKNOWN_INDEX, 0x03, 0x1); s->memcache[1] = vp_ins(t, HWLOC_OBJ_MEMCACHE, HWLOC_UNKNOWN_INDEX, 0x24, 0x2);
     return 0;
   }
   if (vp_seed_id == 1 || vp_seed_id == 4) {
@@ -146,6 +157,7 @@ static struct hwloc_topology *vp_seed_build(int id, unsigned long flags)
   hwloc__topology_filter_init(t);
   /* default filters, plus I/O and Misc kept so that S2 can carry them */
   t->type_filter[HWLOC_OBJ_BRIDGE] = t->type_filter[HWLOC_OBJ_PCI_DEVICE] = t->type_filter[HWLOC_OBJ_OS_DEVICE] = t->type_filter[HWLOC_OBJ_MISC] = HWLOC_TYPE_FILTER_KEEP_ALL;
+  if (id == 5) t->type_filter[HWLOC_OBJ_MEMCACHE] = HWLOC_TYPE_FILTER_KEEP_ALL;
 #ifdef VP_SEED_FILTER_HOOK
   VP_SEED_FILTER_HOOK(t);
 #endif
